@@ -27,6 +27,8 @@ Y = 'pysmi/codegen/pysnmp.py'
 T = 'pysmi/codegen/templates/pysnmp/mib-definitions.j2'
 B = 'pysmi/codegen/base.py'
 WL = 'pysmi/writer/localfile.py'
+Z = 'pysmi/reader/zipreader.py'
+RL = 'pysmi/reader/localfile.py'
 WP = 'pysmi/writer/pyfile.py'
 
 # (name, property, file, old, new)
@@ -247,6 +249,16 @@ M = [
     ('index-identity-guard-negated', 'C18', J, "            if identity_oid:\n", "            if not identity_oid:\n"),
     ('index-merge-guard-negated', 'C18', J, "        if kwargs.get('old_index_data'):\n", "        if not kwargs.get('old_index_data'):\n"),
     ('index-enterprise-list-reset', 'C18', J, "                if enterprise_oid not in modData:\n", "                if enterprise_oid in modData:\n"),
+    ('zip-outer-object-forgotten', 'C14', Z, "        if isinstance(fileObj, FileLike):\n            fileObj = None\n", "        if not isinstance(fileObj, FileLike):\n            fileObj = None\n"),
+    ('zip-inner-test-negated', 'C14', Z, "            if (member.filename.endswith('.zip') or\n                    member.filename.endswith('.ZIP')):\n", "            if not (member.filename.endswith('.zip') or\n                    member.filename.endswith('.ZIP')):\n"),
+    ('zip-collision-loop-negated', 'C14', Z, "                    while innerFilename in members:\n", "                    while innerFilename not in members:\n"),
+    ('zip-chain-link-uses-previous-archive', 'C14', Z, "            archive = zipfile.ZipFile(fileObj)\n\n            try:\n", "            if fileObj:\n                archive = zipfile.ZipFile(fileObj)\n\n            try:\n"),
+    ('zip-empty-archive-test-negated', 'C14', Z, "        if not self._members:\n            raise error.PySmiReaderFileNotFoundError", "        if self._members:\n            raise error.PySmiReaderFileNotFoundError"),
+    ('zip-members-uninitialised', 'C14', Z, "        self._members = {}\n        self._pendingError = None\n", "        self._pendingError = None\n"),
+    ('filelike-seek-from-end-ignored', 'C14', Z, "        elif mode == 2:\n            pos += self.len\n", "        elif mode == 2:\n            pos = self.len\n"),
+    ('filelike-read-does-not-advance', 'C14', Z, "        r = self.buf[self.pos:newpos]\n\n        self.pos = newpos\n", "        r = self.buf[self.pos:newpos]\n"),
+    ('index-load-guard-negated', 'C14', RL, "            if not self._indexLoaded:\n", "            if self._indexLoaded:\n"),
+    ('index-file-exists-negated', 'C14', RL, "        if os.path.exists(indexFile):\n", "        if not os.path.exists(indexFile):\n"),
     ('compliance-module-unguarded-subscript', 'C11', P, "        objects = p[3] and p[3][1] or []\n", "        objects = p[3][1]\n"),
 ]
 
